@@ -10,7 +10,7 @@
     10000), CalWire does not ([models_differ_beyond_depth_limit]). *)
 From Coq Require Import Permutation.
 From GW Require Import Base CalTime CalTimeProofs CalXml CalWire CalWireLex CalWireServer.
-From GW Require ServerTotal.
+From GW Require ServerTotal CalWireVariant.
 Module ST := ServerTotal.
 
 (** * The date-time text: [ST.parse_utc_ok] accepts what [CalTime.parse_utc] parses *)
@@ -529,4 +529,634 @@ Proof.
     constructor; [assumption | assumption | now apply Forall2_snoc]. }
   specialize (Hks Hstep k a1 a1' Hk Ha).
   destruct (ST.fold_opt _ kids a1), (fold_res cf_kid k a1'); cbn in Hks; try contradiction; exact Hks.
+Qed.
+
+Lemma fold_opt_no_attr {A} (acc : A) (attrs : list ST.xattr) : ST.fold_opt ST.no_attr attrs acc = Some acc.
+Proof. induction attrs; cbn; auto. Qed.
+
+(** filter *)
+Lemma sim_filter d acc acc' T t :
+  E T t -> fits d t -> R_cf acc acc' -> sim R_cf (ST.um_cal_filter d acc t) (u_filter acc' T).
+Proof.
+  intros HE Hfit HR. elem_case t HE.
+  unfold ST.um_cal_filter, ST.um_struct, u_filter.
+  pose proof (fits_lt _ _ _ _ _ Hfit) as Hlt.
+  rewrite chk_ok by lia. rewrite name_ok_eq by reflexivity.
+  change (ST.NS_CAL, "filter") with (cn "filter").
+  destruct (name_eqb (ns, l) (cn "filter")); cbn [negb]; [|reflexivity].
+  rewrite fold_opt_no_attr.
+  match goal with |- context [ST.fold_opt ?fk kids acc] =>
+    pose proof (sim_kids R_cf fk filter_kid kids) as Hks;
+    assert (Hstep : forall acc acc' T t, In t kids -> E T t -> R_cf acc acc' ->
+                                         sim R_cf (fk acc t) (filter_kid acc' T)) end.
+  { clear - Hfit Hlt. intros acc acc' T t Hin HE HR. cbv beta.
+    pose proof (fits_kid _ _ _ _ _ _ Hfit Hin) as Hfk.
+    kid_case t HE.
+    cbn [ST.kid_local filter_kid]. change (local_is (ns', l') ?x) with (String.eqb l' x).
+    destruct (String.eqb l' "comp-filter"); [|assumption].
+    apply sim_cf; [assumption | | assumption]. apply (fits_mono (d + 2)); [assumption | lia]. }
+  specialize (Hks Hstep k acc acc' Hk HR).
+  destruct (ST.fold_opt _ kids acc), (fold_res filter_kid k acc'); cbn in Hks; try contradiction; exact Hks.
+Qed.
+
+(** prop of calendar-data *)
+Lemma sim_named d acc T t :
+  E T t -> fits d t ->
+  sim eq (ST.um_named ST.NS_CAL "prop" d acc t) (match T with Elem n a _ => if negb (name_eqb n (cn "prop")) then Err 400 else fold_attrs cprop_set a acc | _ => Err 400 end).
+Proof.
+  intros HE Hfit. elem_case t HE.
+  unfold ST.um_named, ST.um_struct.
+  pose proof (fits_lt _ _ _ _ _ Hfit) as Hlt.
+  rewrite chk_ok by lia. rewrite name_ok_eq by reflexivity.
+  change (ST.NS_CAL, "prop") with (cn "prop").
+  destruct (name_eqb (ns, l) (cn "prop")); cbn [negb]; [|reflexivity].
+  match goal with |- context [ST.fold_opt ?fa attrs acc] =>
+    pose proof (sim_attrs eq fa cprop_set) as Ha end.
+  specialize (Ha ltac:(
+    intros x y z ->; unfold cprop_set; cbv beta;
+    destruct (String.eqb (ST.a_local z) "name"); reflexivity) a attrs acc acc Hd eq_refl).
+  destruct (ST.fold_opt _ attrs acc) as [a1|], (fold_attrs cprop_set a acc) as [a1'| |]; cbn in Ha; try contradiction;
+    [|exact Ha].
+  rewrite fold_opt_const. exact Ha.
+Qed.
+
+Lemma R_comp_zero : R_comp ST.comp_zero zero_wcomp.
+Proof. constructor. constructor. Qed.
+
+(** comp *)
+Lemma sim_comp t : forall d acc acc' T,
+  E T t -> fits d t -> R_comp acc acc' ->
+  sim R_comp (ST.um_comp d acc t) (u_comp acc' T).
+Proof.
+  induction t as [ns l attrs kids IH | s |] using stree_ind2; intros d acc acc' T HE Hfit HR;
+    [ apply E_elem_inv in HE; destruct HE as (a & k & -> & Hd & Hk)
+    | apply E_text_inv in HE; subst; reflexivity
+    | apply E_other_inv in HE; subst; reflexivity ].
+  rewrite u_comp_eq. cbn [ST.um_comp]. unfold ST.um_struct.
+  pose proof (fits_lt _ _ _ _ _ Hfit) as Hlt.
+  rewrite chk_ok by lia. rewrite name_ok_eq by reflexivity.
+  change (ST.NS_CAL, "comp") with (cn "comp").
+  destruct (name_eqb (ns, l) (cn "comp")); cbn [negb]; [|reflexivity].
+  match goal with |- context [ST.fold_opt ?fa attrs acc] =>
+    pose proof (sim_attrs R_comp fa wcomp_set) as Ha end.
+  specialize (Ha ltac:(
+    intros x y z H; inversion H; subst; unfold wcomp_set; cbv beta;
+    destruct (String.eqb (ST.a_local z) "name"); cbn; constructor; assumption) a attrs acc acc' Hd HR).
+  destruct (ST.fold_opt _ attrs acc) as [a1|], (fold_attrs wcomp_set a acc') as [a1'| |]; cbn in Ha; try contradiction;
+    [|exact Ha].
+  match goal with |- context [ST.fold_opt ?fk kids a1] =>
+    pose proof (sim_kids R_comp fk comp_kid kids) as Hks;
+    assert (Hstep : forall acc acc' T t, In t kids -> E T t -> R_comp acc acc' ->
+                                         sim R_comp (fk acc t) (comp_kid acc' T)) end.
+  { clear - Hfit Hlt IH. intros acc acc' T t Hin HE HR. inversion HR as [n ap ps ac cs cs' H5]; subst.
+    cbv beta.
+    pose proof (fits_kid _ _ _ _ _ _ Hfit Hin) as Hfk.
+    kid_case t HE; try (constructor; assumption).
+    cbn [ST.kid_local comp_kid]. change (local_is (ns', l') ?x) with (String.eqb l' x).
+    destruct (String.eqb l' "allprop").
+    { unfold ST.into_flag. rewrite chk_ok by lia. constructor; assumption. }
+    destruct (String.eqb l' "prop").
+    { unfold ST.into_slice. rewrite chk_ok by lia.
+      pose proof (sim_named (d + 2) "" _ _ HE Hfk) as Hs. cbv beta iota in Hs.
+      unfold u_cprop.
+      destruct (ST.um_named _ _ _ _ _), (if negb (name_eqb (ns', l') (cn "prop")) then _ else _);
+        cbn in Hs; try contradiction; [|exact Hs].
+      subst. constructor; assumption. }
+    destruct (String.eqb l' "allcomp").
+    { unfold ST.into_flag. rewrite chk_ok by lia. constructor; assumption. }
+    destruct (String.eqb l' "comp"); [|constructor; assumption].
+    rewrite chk_ok by lia.
+    rewrite Forall_forall in IH.
+    pose proof (IH _ Hin (d + 2)%N _ _ _ HE Hfk R_comp_zero) as Hs.
+    destruct (ST.um_comp _ _ _), (u_comp _ _); cbn in Hs; try contradiction; [|exact Hs].
+    constructor. now apply Forall2_snoc. }
+  specialize (Hks Hstep k a1 a1' Hk Ha).
+  destruct (ST.fold_opt _ kids a1), (fold_res comp_kid k a1'); cbn in Hks; try contradiction; exact Hks.
+Qed.
+
+(** calendar-data *)
+Lemma sim_cd d acc acc' T t :
+  E T t -> fits d t -> R_cd acc acc' -> sim R_cd (ST.um_cal_data d acc t) (u_cal_data_req acc' T).
+Proof.
+  intros HE Hfit HR. elem_case t HE.
+  unfold ST.um_cal_data, ST.um_struct, u_cal_data_req.
+  pose proof (fits_lt _ _ _ _ _ Hfit) as Hlt.
+  rewrite chk_ok by lia. rewrite name_ok_eq by reflexivity.
+  change (ST.NS_CAL, "calendar-data") with (cn "calendar-data").
+  destruct (name_eqb (ns, l) (cn "calendar-data")); cbn [negb]; [|reflexivity].
+  rewrite fold_opt_no_attr.
+  match goal with |- context [ST.fold_opt ?fk kids acc] =>
+    pose proof (sim_kids R_cd fk wcd_kid kids) as Hks;
+    assert (Hstep : forall acc acc' T t, In t kids -> E T t -> R_cd acc acc' ->
+                                         sim R_cd (fk acc t) (wcd_kid acc' T)) end.
+  { clear - Hfit Hlt. intros acc acc' T t Hin HE [H1 H2]. cbv beta.
+    pose proof (fits_kid _ _ _ _ _ _ Hfit Hin) as Hfk.
+    kid_case t HE; try (split; assumption).
+    cbn [ST.kid_local wcd_kid]. change (local_is (ns', l') ?x) with (String.eqb l' x).
+    destruct (String.eqb l' "comp").
+    { unfold ST.into_ptr.
+      pose proof (sim_comp _ (d + 1)%N _ _ _ HE (fits_mono (d + 2) (d + 1) _ Hfk ltac:(lia))
+                           (R_opt_default R_comp _ _ _ _ R_comp_zero H1)) as Hs.
+      destruct (ST.um_comp _ _ _), (u_comp _ _); cbn in Hs; try contradiction; [|exact Hs].
+      split; [exact Hs | assumption]. }
+    destruct (String.eqb l' "expand"); [|split; assumption].
+    unfold ST.into_ptr.
+    pose proof (sim_ex (d + 1) _ _ _ _ HE (fits_mono (d + 2) (d + 1) _ Hfk ltac:(lia))
+                       (R_opt_default R_ex _ _ _ _ R_ex_zero H2)) as Hs.
+    destruct (ST.um_expand _ _ _), (u_expand _ _); cbn in Hs; try contradiction; [|exact Hs].
+    split; [assumption | exact Hs]. }
+  specialize (Hks Hstep k acc acc' Hk HR).
+  destruct (ST.fold_opt _ kids acc), (fold_res wcd_kid k acc'); cbn in Hks; try contradiction; exact Hks.
+Qed.
+
+(** * Raw property values *)
+Lemma tra_is_decl x : is_decl (tra x) = ST.is_ns_decl x.
+Proof.
+  unfold is_decl, ST.is_ns_decl, a_space, a_local, tra. cbn [fst snd].
+  now rewrite eqb_empty_r.
+Qed.
+
+Lemma tr_strip_decls t : tr (ST.strip_decls t) = strip_decls (tr t).
+Proof.
+  induction t as [ns l attrs kids IH | s |] using stree_ind2; try reflexivity.
+  cbn [ST.strip_decls tr strip_decls]. f_equal.
+  - unfold drop_decls. induction attrs as [|x r IHr]; [reflexivity |]. cbn [filter map].
+    rewrite tra_is_decl. destruct (ST.is_ns_decl x); cbn [negb map]; now rewrite IHr.
+  - rewrite !map_map. induction IH as [|x r Hx _ IHr]; [reflexivity |]. cbn [map]. now rewrite Hx, IHr.
+Qed.
+
+Lemma strip_foreign_decls_comm T : strip_foreign (strip_decls T) = strip_decls (strip_foreign T).
+Proof.
+  induction T as [n a k IH | s | s] using CalWireVariant.xtree_ind2; try reflexivity.
+  cbn [strip_foreign strip_decls]. f_equal.
+  - unfold drop_foreign, drop_decls. induction a as [|x r IHr]; [reflexivity |]. cbn [filter].
+    destruct (is_decl x) eqn:E1, (str_empty (a_space x)) eqn:E2; cbn [negb filter]; rewrite ?E1, ?E2; cbn [negb];
+      now rewrite IHr.
+  - rewrite !map_map. induction IH as [|x r Hx _ IHr]; [reflexivity |]. cbn [map]. now rewrite Hx, IHr.
+Qed.
+
+Lemma strip_foreign_idem T : strip_foreign (strip_foreign T) = strip_foreign T.
+Proof.
+  induction T as [n a k IH | s | s] using CalWireVariant.xtree_ind2; try reflexivity.
+  cbn [strip_foreign]. f_equal.
+  - unfold drop_foreign. induction a as [|x r IHr]; [reflexivity |]. cbn [filter].
+    destruct (str_empty (a_space x)) eqn:E2; cbn [filter]; rewrite ?E2; now rewrite IHr.
+  - rewrite !map_map. induction IH as [|x r Hx _ IHr]; [reflexivity |]. cbn [map]. now rewrite Hx, IHr.
+Qed.
+
+(** what RawXMLValue captures, in both models *)
+Lemma E_raw T t : E T t -> E (strip_decls (strip_foreign T)) (ST.strip_decls t).
+Proof.
+  unfold E. intros H. rewrite strip_foreign_decls_comm, strip_foreign_idem, H. symmetry. apply tr_strip_decls.
+Qed.
+
+Lemma height_strip_decls t : height (ST.strip_decls t) = height t.
+Proof.
+  induction t as [ns l attrs kids IH | s |] using stree_ind2; try reflexivity.
+  cbn [ST.strip_decls height]. f_equal.
+  induction IH as [|x r Hx _ IHr]; [reflexivity |]. cbn [map fold_right]. now rewrite Hx, IHr.
+Qed.
+
+Definition R_raw (Hb : N) (r : ST.rawval) (T : xtree) : Prop :=
+  exists t, r = ST.RawTok t /\ E T t /\ (height t <= Hb)%N.
+Definition R_raws (Hb : N) : list ST.rawval -> list xtree -> Prop := Forall2 (R_raw Hb).
+
+(** DAV:prop *)
+Lemma sim_raws Hb d acc acc' T t :
+  E T t -> fits d t -> (height t <= Hb)%N -> R_raws Hb acc acc' ->
+  sim (R_raws Hb) (ST.um_raws "prop" d acc t) (u_dprop acc' T).
+Proof.
+  intros HE Hfit Hh HR. elem_case t HE.
+  unfold ST.um_raws, ST.um_struct, u_dprop.
+  pose proof (fits_lt _ _ _ _ _ Hfit) as Hlt.
+  rewrite chk_ok by lia. rewrite name_ok_eq by reflexivity.
+  change (ST.NS_DAV, "prop") with (dn "prop").
+  destruct (name_eqb (ns, l) (dn "prop")); cbn [negb]; [|reflexivity].
+  rewrite fold_opt_no_attr.
+  match goal with |- context [ST.fold_opt ?fk kids acc] =>
+    pose proof (sim_kids (R_raws Hb) fk dprop_kid kids) as Hks;
+    assert (Hstep : forall acc acc' T t, In t kids -> E T t -> R_raws Hb acc acc' ->
+                                         sim (R_raws Hb) (fk acc t) (dprop_kid acc' T)) end.
+  { clear - Hfit Hlt Hh. intros acc acc' T t Hin HE HR. cbv beta.
+    pose proof (fits_kid _ _ _ _ _ _ Hfit Hin) as Hfk.
+    pose proof (height_kid ns l attrs kids _ Hin) as Hhk.
+    destruct t as [ns' l' attrs' kids' | s' |];
+      [ | apply E_text_inv in HE; subst; exact HR | apply E_other_inv in HE; subst; exact HR ].
+    pose proof HE as HE0. apply E_elem_inv in HE0. destruct HE0 as (a' & k' & -> & _ & _).
+    rewrite chk_ok by (apply fits_lt in Hfk; lia).
+    cbn [dprop_kid]. apply Forall2_snoc; [exact HR |].
+    eexists. split; [reflexivity |]. split; [now apply E_raw |].
+    rewrite height_strip_decls. lia. }
+  specialize (Hks Hstep k acc acc' Hk HR). unfold w_prop in *.
+  destruct (ST.fold_opt _ kids acc), (fold_res dprop_kid k acc'); cbn in Hks; try contradiction; exact Hks.
+Qed.
+
+(** calendar-query *)
+Definition R_cq (Hb : N) (x : ST.calQueryW) (y : w_calendar_query) : Prop :=
+  R_opt (R_raws Hb) (ST.s_prop (ST.cq_sel x)) (wq_prop y)
+  /\ ST.s_allprop (ST.cq_sel x) = wq_allprop y /\ ST.s_propname (ST.cq_sel x) = wq_propname y
+  /\ R_cf (ST.cq_filter x) (wq_filter y).
+
+Lemma R_raws_nil Hb : R_raws Hb [] [].
+Proof. constructor. Qed.
+
+Lemma sim_cq Hb d acc acc' T t :
+  E T t -> fits d t -> (height t <= Hb)%N -> R_cq Hb acc acc' ->
+  sim (R_cq Hb) (ST.um_cal_query d acc t) (u_calendar_query acc' T).
+Proof.
+  intros HE Hfit Hh HR. elem_case t HE.
+  unfold ST.um_cal_query, ST.um_struct, u_calendar_query.
+  pose proof (fits_lt _ _ _ _ _ Hfit) as Hlt.
+  rewrite chk_ok by lia. rewrite name_ok_eq by reflexivity.
+  change (ST.NS_CAL, "calendar-query") with (cn "calendar-query").
+  destruct (name_eqb (ns, l) (cn "calendar-query")); cbn [negb]; [|reflexivity].
+  rewrite fold_opt_no_attr.
+  match goal with |- context [ST.fold_opt ?fk kids acc] =>
+    pose proof (sim_kids (R_cq Hb) fk wq_kid kids) as Hks;
+    assert (Hstep : forall acc acc' T t, In t kids -> E T t -> R_cq Hb acc acc' ->
+                                         sim (R_cq Hb) (fk acc t) (wq_kid acc' T)) end.
+  { clear - Hfit Hlt Hh. intros acc acc' T t Hin HE (H1 & H2 & H3 & H4). cbv beta.
+    pose proof (fits_kid _ _ _ _ _ _ Hfit Hin) as Hfk.
+    pose proof (height_kid ns l attrs kids _ Hin) as Hhk.
+    unfold ST.um_sel.
+    kid_case t HE; try (repeat split; assumption).
+    cbn [ST.kid_is ST.kid_local wq_kid].
+    change (String.eqb ns' ST.NS_DAV && String.eqb l' ?x) with (name_eqb (ns', l') (dn x)).
+    change (local_is (ns', l') ?x) with (String.eqb l' x).
+    destruct (name_eqb (ns', l') (dn "prop")).
+    { unfold ST.into_ptr.
+      pose proof (sim_raws Hb (d + 1) _ _ _ _ HE (fits_mono (d + 2) (d + 1) _ Hfk ltac:(lia)) ltac:(lia)
+                           (R_opt_default (R_raws Hb) _ _ _ _ (R_raws_nil Hb) H1)) as Hs.
+      destruct (ST.um_raws _ _ _ _), (u_dprop _ _); cbn in Hs; try contradiction; [|exact Hs].
+      split; [exact Hs | repeat split; assumption]. }
+    destruct (name_eqb (ns', l') (dn "allprop")).
+    { unfold ST.into_flag. rewrite chk_ok by lia. repeat split; assumption. }
+    destruct (name_eqb (ns', l') (dn "propname")).
+    { unfold ST.into_flag. rewrite chk_ok by lia. repeat split; assumption. }
+    destruct (String.eqb l' "filter"); [|repeat split; assumption].
+    pose proof (sim_filter (d + 1) _ _ _ _ HE (fits_mono (d + 2) (d + 1) _ Hfk ltac:(lia)) H4) as Hs.
+    destruct (ST.um_cal_filter _ _ _), (u_filter _ _); cbn in Hs; try contradiction; [|exact Hs].
+    repeat split; assumption. }
+  specialize (Hks Hstep k acc acc' Hk HR).
+  destruct (ST.fold_opt _ kids acc), (fold_res wq_kid k acc'); cbn in Hks; try contradiction; exact Hks.
+Qed.
+
+Section Agree.
+Variable href_parse : string -> option string.
+(** [url_ok] is ServerTotal's view of url.Parse on an href text (did it succeed),
+    [href_parse] CalWire's (the parsed path): two views of one function *)
+Variable url_ok : string -> bool.
+Hypothesis url_ok_spec : forall s, url_ok s = some_b (href_parse s).
+
+Definition R_href (s p : string) : Prop := href_parse s = Some p.
+Definition R_mg (Hb : N) (x : ST.multigetW) (y : w_multiget) : Prop :=
+  R_opt (R_raws Hb) (ST.s_prop (ST.mg_sel x)) (wm_prop y)
+  /\ ST.s_allprop (ST.mg_sel x) = wm_allprop y /\ ST.s_propname (ST.mg_sel x) = wm_propname y
+  /\ Forall2 R_href (ST.mg_hrefs x) (wm_hrefs y).
+
+(** calendar-multiget *)
+Lemma sim_mg Hb d acc acc' T t :
+  E T t -> fits d t -> (height t <= Hb)%N -> R_mg Hb acc acc' ->
+  sim (R_mg Hb) (ST.um_multiget ST.NS_CAL "calendar-multiget" url_ok d acc t) (u_multiget href_parse acc' T).
+Proof.
+  intros HE Hfit Hh HR. elem_case t HE.
+  unfold ST.um_multiget, ST.um_struct, u_multiget.
+  pose proof (fits_lt _ _ _ _ _ Hfit) as Hlt.
+  rewrite chk_ok by lia. rewrite name_ok_eq by reflexivity.
+  change (ST.NS_CAL, "calendar-multiget") with (cn "calendar-multiget").
+  destruct (name_eqb (ns, l) (cn "calendar-multiget")); cbn [negb]; [|reflexivity].
+  rewrite fold_opt_no_attr.
+  match goal with |- context [ST.fold_opt ?fk kids acc] =>
+    pose proof (sim_kids (R_mg Hb) fk (wm_kid href_parse) kids) as Hks;
+    assert (Hstep : forall acc acc' T t, In t kids -> E T t -> R_mg Hb acc acc' ->
+                                         sim (R_mg Hb) (fk acc t) (wm_kid href_parse acc' T)) end.
+  { clear - Hfit Hlt Hh url_ok_spec. intros acc acc' T t Hin HE (H1 & H2 & H3 & H4). cbv beta.
+    pose proof (fits_kid _ _ _ _ _ _ Hfit Hin) as Hfk.
+    pose proof (height_kid ns l attrs kids _ Hin) as Hhk.
+    unfold ST.um_sel.
+    kid_case t HE; try (repeat split; assumption).
+    cbn [ST.kid_is wm_kid].
+    change (String.eqb ns' ST.NS_DAV && String.eqb l' ?x) with (name_eqb (ns', l') (dn x)).
+    destruct (name_eqb (ns', l') (dn "prop")).
+    { unfold ST.into_ptr.
+      pose proof (sim_raws Hb (d + 1) _ _ _ _ HE (fits_mono (d + 2) (d + 1) _ Hfk ltac:(lia)) ltac:(lia)
+                           (R_opt_default (R_raws Hb) _ _ _ _ (R_raws_nil Hb) H1)) as Hs.
+      destruct (ST.um_raws _ _ _ _), (u_dprop _ _); cbn in Hs; try contradiction; [|exact Hs].
+      split; [exact Hs | repeat split; assumption]. }
+    destruct (name_eqb (ns', l') (dn "allprop")).
+    { unfold ST.into_flag. rewrite chk_ok by lia. repeat split; assumption. }
+    destruct (name_eqb (ns', l') (dn "propname")).
+    { unfold ST.into_flag. rewrite chk_ok by lia. repeat split; assumption. }
+    destruct (name_eqb (ns', l') (dn "href")); [|repeat split; assumption].
+    unfold ST.into_slice, ST.um_href, u_href. rewrite chk_ok by lia.
+    rewrite chk_ok by (apply fits_lt in Hfk; lia).
+    apply E_elem_inv in HE. destruct HE as (a2 & k2 & Heq & _ & Hk2). inversion Heq; subst a2 k2.
+    rewrite (E_chardata _ _ Hk2). rewrite url_ok_spec.
+    destruct (href_parse (ST.chardata kids')) as [p|] eqn:Ep; cbn [some_b]; [|reflexivity].
+    split; [assumption | split; [assumption | split; [assumption |]]].
+    cbn. apply Forall2_snoc; [assumption | exact Ep]. }
+  specialize (Hks Hstep k acc acc' Hk HR).
+  destruct (ST.fold_opt _ kids acc), (fold_res (wm_kid href_parse) k acc'); cbn in Hks; try contradiction; exact Hks.
+Qed.
+
+(** * The decoders of caldav/server.go: ServerTotal keeps "decoded / 400",
+      CalWire the decoded value *)
+Definition dsim {A} (b : bool) (r : res A) : Prop :=
+  if b then exists v, r = Ok v else r = Err 400.
+
+Lemma R_opt_is_some {A B} (R : A -> B -> Prop) o o' : R_opt R o o' -> ST.is_some o = is_some o'.
+Proof. destruct o, o'; cbn; tauto. Qed.
+
+Lemma Forall2_nonempty {A B} (R : A -> B -> Prop) l l' :
+  Forall2 R l l' -> ST.nonempty l = negb (Nat.eqb (List.length l') 0).
+Proof. destruct 1; reflexivity. Qed.
+
+Lemma dsim_forall {A B C} (R : A -> B -> Prop) (f : A -> bool) (g : B -> res C) l l' :
+  Forall2 R l l' -> (forall x y, In x l -> R x y -> dsim (f x) (g y)) ->
+  dsim (forallb f l) (map_res g l').
+Proof.
+  induction 1 as [|x y l l' Hxy _ IH]; intros Hs; cbn [forallb map_res].
+  - eexists. reflexivity.
+  - pose proof (Hs x y (or_introl eq_refl) Hxy) as H1. unfold dsim in *.
+    destruct (f x); cbn [andb].
+    + destruct H1 as (v & ->). specialize (IH (fun a b Ha => Hs a b (or_intror Ha))).
+      destruct (forallb f l).
+      * destruct IH as (vs & ->). eauto.
+      * now rewrite IH.
+    + now rewrite H1.
+Qed.
+
+Lemma D_paf x y : R_paf x y -> dsim (ST.decode_param_filter x) (decode_param_filter y).
+Proof.
+  intros (H1 & H2 & H3). unfold ST.decode_param_filter, decode_param_filter, dsim.
+  rewrite (R_opt_is_some _ _ _ H3), H2.
+  destruct (wpaf_ind y && is_some (wpaf_tm y)); cbn [negb]; eauto.
+Qed.
+
+Lemma D_pf x y : R_pf x y -> dsim (ST.decode_cprop_filter x) (decode_prop_filter y).
+Proof.
+  intros (H1 & H2 & H3 & H4 & H5). unfold ST.decode_cprop_filter, decode_prop_filter.
+  rewrite (R_opt_is_some _ _ _ H3), (R_opt_is_some _ _ _ H4), H2, (Forall2_nonempty _ _ _ H5).
+  destruct (wpf_ind y && _); [reflexivity |].
+  pose proof (dsim_forall R_paf ST.decode_param_filter decode_param_filter _ _ H5 (fun a b _ => D_paf a b)) as Hd.
+  unfold dsim in *. destruct (forallb _ _).
+  - destruct Hd as (v & ->). eauto.
+  - now rewrite Hd.
+Qed.
+
+Section CFWInd.
+  Variable P : ST.compFilterW -> Prop.
+  Hypothesis H : forall n i tr pfs cfs, Forall P cfs -> P (ST.CompFilterW n i tr pfs cfs).
+  Fixpoint cfw_ind2 (f : ST.compFilterW) : P f :=
+    match f with
+    | ST.CompFilterW n i tr pfs cfs =>
+      H n i tr pfs cfs ((fix go (l : list ST.compFilterW) : Forall P l :=
+                           match l with [] => Forall_nil _ | x :: r => Forall_cons x (cfw_ind2 x) (go r) end) cfs)
+    end.
+End CFWInd.
+Section CWInd.
+  Variable P : ST.compW -> Prop.
+  Hypothesis H : forall n ap ps ac cs, Forall P cs -> P (ST.CompW n ap ps ac cs).
+  Fixpoint cw_ind2 (c : ST.compW) : P c :=
+    match c with
+    | ST.CompW n ap ps ac cs =>
+      H n ap ps ac cs ((fix go (l : list ST.compW) : Forall P l :=
+                          match l with [] => Forall_nil _ | x :: r => Forall_cons x (cw_ind2 x) (go r) end) cs)
+    end.
+End CWInd.
+
+Lemma D_cf x : forall y, R_cf x y -> dsim (ST.decode_comp_filter x) (decode_comp_filter y).
+Proof.
+  induction x as [n i tr pfs cfs IH] using cfw_ind2. intros y HR. inversion HR as [? ? ? tr' ? pfs' ? cfs' H3 H4 H5]; subst.
+  cbn [ST.decode_comp_filter decode_comp_filter].
+  rewrite (R_opt_is_some _ _ _ H3), (Forall2_nonempty _ _ _ H4), (Forall2_nonempty _ _ _ H5).
+  destruct (i && _); [reflexivity |].
+  pose proof (dsim_forall R_pf ST.decode_cprop_filter decode_prop_filter _ _ H4 (fun a b _ => D_pf a b)) as Hp.
+  assert (Hc : dsim (forallb ST.decode_comp_filter cfs) (map_res decode_comp_filter cfs')).
+  { apply (dsim_forall R_cf); [assumption |]. intros a b Ha Hab. rewrite Forall_forall in IH. now apply IH. }
+  unfold dsim in *. destruct (forallb ST.decode_cprop_filter pfs); cbn [andb].
+  - destruct Hp as (ps & ->). destruct (forallb ST.decode_comp_filter cfs).
+    + destruct Hc as (cs & ->). eauto.
+    + now rewrite Hc.
+  - now rewrite Hp.
+Qed.
+
+Lemma D_comp x : forall y, R_comp x y -> dsim (ST.decode_comp x) (decode_comp y).
+Proof.
+  induction x as [n ap ps ac cs IH] using cw_ind2. intros y HR. inversion HR as [? ? ? ? ? cs' H5]; subst.
+  cbn [ST.decode_comp decode_comp].
+  replace (ST.nonempty ps) with (negb (Nat.eqb (List.length ps) 0)) by (now destruct ps).
+  rewrite (Forall2_nonempty _ _ _ H5).
+  destruct (ap && _); [reflexivity |]. destruct (ac && _); [reflexivity |].
+  assert (Hc : dsim (forallb ST.decode_comp cs) (map_res decode_comp cs')).
+  { apply (dsim_forall R_comp); [assumption |]. intros a b Ha Hab. rewrite Forall_forall in IH. now apply IH. }
+  unfold dsim in *. destruct (forallb ST.decode_comp cs).
+  - destruct Hc as (v & ->). eauto.
+  - now rewrite Hc.
+Qed.
+
+Lemma D_cd x y : R_cd x y -> dsim (ST.decode_cal_data_req x) (decode_calendar_data_req y).
+Proof.
+  intros [H1 H2]. unfold ST.decode_cal_data_req, decode_calendar_data_req.
+  destruct (ST.cd_comp x) as [c|], (wcd_comp y) as [c'|]; cbn in H1; try contradiction.
+  - pose proof (D_comp _ _ H1) as Hd. unfold dsim in *. destruct (ST.decode_comp c).
+    + destruct Hd as (v & ->). destruct (wcd_expand y); eauto.
+    + now rewrite Hd.
+  - cbn. destruct (wcd_expand y); eauto.
+Qed.
+
+Lemma R_cd_zero : R_cd ST.cal_data_zero zero_wcd.
+Proof. split; exact I. Qed.
+
+(** Prop.Decode(&calendarData) + decodeCalendarDataReq *)
+Lemma D_caldata Hb sel p :
+  (2 * Hb <= ST.MAXD)%N -> R_opt (R_raws Hb) (ST.s_prop sel) p ->
+  match ST.cal_data_of_prop sel with
+  | Ok b => dsim b (decode_prop_caldata p)
+  | _ => False
+  end.
+Proof.
+  intros HHb HR. unfold ST.cal_data_of_prop, decode_prop_caldata.
+  destruct (ST.s_prop sel) as [raws|], p as [raws'|]; cbn in HR; try contradiction; [|eexists; reflexivity].
+  induction HR as [|r T raws raws' Hr _ IH].
+  - cbn. pose proof (D_cd _ _ R_cd_zero) as Hd. exact Hd.
+  - destruct Hr as (t & -> & HE & Hh). cbn [ST.prop_get find ST.raw_name_is].
+    assert (Hn : is_caldata T = ST.kid_is t ST.NS_CAL "calendar-data").
+    { destruct t as [ns l attrs kids | s |].
+      - apply E_elem_inv in HE. destruct HE as (a & k & -> & _). reflexivity.
+      - apply E_text_inv in HE. now subst.
+      - apply E_other_inv in HE. now subst. }
+    rewrite Hn. destruct (ST.kid_is t ST.NS_CAL "calendar-data"); [|exact IH].
+    cbn [ST.raw_token_reader bind].
+    pose proof (sim_cd 0 _ _ _ _ HE ltac:(unfold fits; lia) R_cd_zero) as Hs.
+    destruct (ST.um_cal_data 0 ST.cal_data_zero t), (u_cal_data_req zero_wcd T); cbn in Hs; try contradiction.
+    + now apply D_cd.
+    + reflexivity.
+Qed.
+
+(** * The two report handlers *)
+Lemma tr_drop_qualified t : strip_foreign (tr t) = tr (ST.drop_qualified t).
+Proof.
+  induction t as [ns l attrs kids IH | s |] using stree_ind2; try reflexivity.
+  cbn [ST.drop_qualified tr strip_foreign]. f_equal.
+  - unfold drop_foreign. induction attrs as [|x r IHr]; [reflexivity |]. cbn [filter map].
+    change (a_space (tra x)) with (ST.a_ns x).
+    destruct (str_empty (ST.a_ns x)); cbn [map]; now rewrite IHr.
+  - rewrite !map_map. induction IH as [|x r Hx _ IHr]; [reflexivity |]. cbn [map]. now rewrite Hx, IHr.
+Qed.
+
+Lemma height_drop_qualified t : height (ST.drop_qualified t) = height t.
+Proof.
+  induction t as [ns l attrs kids IH | s |] using stree_ind2; try reflexivity.
+  cbn [ST.drop_qualified height]. f_equal.
+  induction IH as [|x r Hx _ IHr]; [reflexivity |]. cbn [map fold_right]. now rewrite Hx, IHr.
+Qed.
+
+(** what ServerTotal's REPORT handler does with a body tree, up to the backend *)
+Inductive st_class := StQuery (q : ST.calQueryW) | StMultiget (m : ST.multigetW) | StBad | StPanic.
+
+Definition st_classify (t : ST.xtree) : st_class :=
+  match ST.um_cal_report url_ok 0 t with
+  | Some (ST.CalQuery q) =>
+    match ST.cal_data_of_prop (ST.cq_sel q) with
+    | Ok true => if ST.decode_comp_filter (ST.cq_filter q) then StQuery q else StBad
+    | Ok false => StBad
+    | _ => StPanic
+    end
+  | Some (ST.CalMultiget m) =>
+    match ST.cal_data_of_prop (ST.mg_sel m) with
+    | Ok true => StMultiget m
+    | Ok false => StBad
+    | _ => StPanic
+    end
+  | None => StBad
+  end.
+
+Lemma R_cq_zero Hb : R_cq Hb ST.cal_query_zero zero_wq.
+Proof. split; [exact I | split; [reflexivity | split; [reflexivity | apply R_cf_zero]]]. Qed.
+Lemma R_mg_zero Hb : R_mg Hb ST.multiget_zero zero_wm.
+Proof. split; [exact I | split; [reflexivity | split; [reflexivity | constructor]]]. Qed.
+
+Theorem models_agree path t :
+  (2 * height t <= ST.MAXD)%N ->
+  match handle_report href_parse path (tr t), st_classify t with
+  | Ok (BQuery p q), StQuery qw =>
+    p = path /\ exists w, R_cf (ST.cq_filter qw) w /\ decode_comp_filter w = Ok (q_cf q)
+  | Ok (BMultiget ps cr), StMultiget mw => Forall2 R_href (ST.mg_hrefs mw) ps
+  | Err c, StBad => c = 400%N
+  | _, _ => False
+  end.
+Proof.
+  intros Hh. unfold st_classify, ST.um_cal_report. rewrite chk_ok by (unfold ST.MAXD; lia).
+  destruct t as [ns l attrs kids | s |]; [|reflexivity | reflexivity].
+  cbn [tr handle_report ST.kid_is].
+  change (String.eqb ns ST.NS_CAL && String.eqb l ?x) with (name_eqb (ns, l) (cn x)).
+  set (t := ST.XElem ns l attrs kids) in *.
+  assert (HE : E (tr t) (ST.drop_qualified t)) by apply tr_drop_qualified.
+  assert (Hfit : fits 0 (ST.drop_qualified t)) by (unfold fits; rewrite height_drop_qualified; lia).
+  assert (Hhb : (height (ST.drop_qualified t) <= height t)%N) by (rewrite height_drop_qualified; lia).
+  change (Elem (ns, l) (map tra attrs) (map tr kids)) with (tr t).
+  destruct (name_eqb (ns, l) (cn "calendar-query")).
+  - pose proof (sim_cq (height t) 0 _ _ _ _ HE Hfit Hhb (R_cq_zero _)) as Hs.
+    destruct (ST.um_cal_query 0 ST.cal_query_zero (ST.drop_qualified t)) as [qw|],
+             (u_calendar_query zero_wq (tr t)) as [q'| |]; cbn in Hs; try contradiction; [|exact Hs].
+    destruct Hs as (H1 & H2 & H3 & H4). unfold handle_query.
+    pose proof (D_caldata (height t) (ST.cq_sel qw) _ Hh H1) as Hc.
+    destruct (ST.cal_data_of_prop (ST.cq_sel qw)) as [b| |]; try contradiction.
+    unfold dsim in Hc. destruct b.
+    + destruct Hc as (cr & ->). pose proof (D_cf _ _ H4) as Hf. unfold dsim in Hf.
+      destruct (ST.decode_comp_filter (ST.cq_filter qw)).
+      * destruct Hf as (cf & Hf). rewrite Hf. split; [reflexivity |]. exists (wq_filter q'). auto.
+      * rewrite Hf. reflexivity.
+    + rewrite Hc. reflexivity.
+  - destruct (name_eqb (ns, l) (cn "calendar-multiget")); [|reflexivity].
+    pose proof (sim_mg (height t) 0 _ _ _ _ HE Hfit Hhb (R_mg_zero _)) as Hs.
+    destruct (ST.um_multiget ST.NS_CAL "calendar-multiget" url_ok 0 ST.multiget_zero (ST.drop_qualified t)) as [mw|],
+             (u_multiget href_parse zero_wm (tr t)) as [m'| |]; cbn in Hs; try contradiction; [|exact Hs].
+    destruct Hs as (H1 & H2 & H3 & H4). unfold handle_multiget.
+    pose proof (D_caldata (height t) (ST.mg_sel mw) _ Hh H1) as Hc.
+    destruct (ST.cal_data_of_prop (ST.mg_sel mw)) as [b| |]; try contradiction.
+    unfold dsim in Hc. destruct b.
+    + destruct Hc as (cr & ->). exact H4.
+    + rewrite Hc. reflexivity.
+Qed.
+
+(** ... and that classification is all [ST.cal_handle_report] looks at *)
+Theorem st_handle_report env r t :
+  ST.is_content_xml r = true -> ST.r_xml r = ST.XTree t -> ST.r_url_ok r = url_ok ->
+  ST.cal_handle_report env r =
+  match st_classify t with
+  | StQuery q =>
+    match ST.ce_query env with
+    | ST.BErr e => ST.HErr e []
+    | ST.BOk objs => ST.hmap (fun _ => 207%N) (ST.each_response (ST.cq_sel q) objs)
+    end
+  | StMultiget m => ST.multiget_loop (ST.ce_get_obj env) (ST.mg_sel m) (ST.mg_hrefs m)
+  | StBad => ST.bad_request
+  | StPanic => ST.HPanic
+  end.
+Proof.
+  intros Hx Ht Hu. unfold ST.cal_handle_report, ST.decode_xml_request, st_classify. rewrite Hx, Ht, Hu. cbn [negb].
+  destruct (ST.um_cal_report url_ok 0 t) as [[q|m]|]; [| |reflexivity].
+  - unfold ST.cal_handle_query. destruct (ST.cal_data_of_prop (ST.cq_sel q)) as [[|]| |]; try reflexivity.
+    destruct (ST.decode_comp_filter (ST.cq_filter q)); reflexivity.
+  - unfold ST.cal_handle_multiget. destruct (ST.cal_data_of_prop (ST.mg_sel m)) as [[|]| |]; reflexivity.
+Qed.
+
+End Agree.
+
+(** * Where the models differ: encoding/xml's nesting limit
+    [n + 1] comp-filters nested in each other inside filter inside calendar-query. *)
+Fixpoint deep_cf (n : nat) : ST.xtree :=
+  ST.XElem ST.NS_CAL "comp-filter" [ {| ST.a_ns := ""; ST.a_local := "name"; ST.a_val := "A" |} ]
+           (match n with O => [] | S n' => [deep_cf n'] end).
+Definition deep_doc (n : nat) : ST.xtree :=
+  ST.XElem ST.NS_CAL "calendar-query" [] [ST.XElem ST.NS_CAL "filter" [] [deep_cf n]].
+
+Definition cw_reaches_backend (t : ST.xtree) : bool :=
+  match handle_report (fun s => Some s) "/cal/" (tr t) with Ok (BQuery _ _) => true | _ => false end.
+Definition st_reaches_backend (t : ST.xtree) : bool :=
+  match st_classify (fun _ => true) t with StQuery _ => true | _ => false end.
+Definition st_answers_400 (t : ST.xtree) : bool :=
+  match st_classify (fun _ => true) t with StBad => true | _ => false end.
+
+(** 4999 nested comp-filters: both models hand the query to the backend;
+    5000: CalWire still does, ServerTotal answers 400 (and so does the real
+    caldav.Handler: errUnmarshalDepth, see notes/C08.md). *)
+Theorem models_differ_beyond_depth_limit :
+  cw_reaches_backend (deep_doc (N.to_nat 4998)) = true /\ st_reaches_backend (deep_doc (N.to_nat 4998)) = true
+  /\ cw_reaches_backend (deep_doc (N.to_nat 4999)) = true /\ st_answers_400 (deep_doc (N.to_nat 4999)) = true.
+Proof. vm_compute. repeat split. Qed.
+
+(** * The agreement, stated on ServerTotal's handler itself *)
+Theorem agrees_with_cal_handle_report (href_parse : string -> option string) env r t path :
+  ST.is_content_xml r = true -> ST.r_xml r = ST.XTree t ->
+  (forall s, ST.r_url_ok r s = some_b (href_parse s)) ->
+  (2 * height t <= ST.MAXD)%N ->
+  match handle_report href_parse path (tr t) with
+  | Err c =>
+    c = 400%N /\ ST.cal_handle_report env r = ST.bad_request
+  | Ok (BQuery p q) =>
+    p = path /\ exists qw,
+      ST.cal_handle_report env r =
+      match ST.ce_query env with
+      | ST.BErr e => ST.HErr e []
+      | ST.BOk objs => ST.hmap (fun _ => 207%N) (ST.each_response (ST.cq_sel qw) objs)
+      end
+      /\ exists w, R_cf (ST.cq_filter qw) w /\ decode_comp_filter w = Ok (q_cf q)
+  | Ok (BMultiget ps cr) =>
+    exists mw,
+      ST.cal_handle_report env r = ST.multiget_loop (ST.ce_get_obj env) (ST.mg_sel mw) (ST.mg_hrefs mw)
+      /\ Forall2 (R_href href_parse) (ST.mg_hrefs mw) ps
+  | Panic => False
+  end.
+Proof.
+  intros Hx Ht Hu Hh.
+  pose proof (models_agree href_parse (ST.r_url_ok r) Hu path t Hh) as Ha.
+  pose proof (st_handle_report (ST.r_url_ok r) env r t Hx Ht eq_refl) as Hs.
+  destruct (handle_report href_parse path (tr t)) as [[p q|ps cr]|c|], (st_classify (ST.r_url_ok r) t) as [qw|mw| |];
+    try contradiction.
+  - destruct Ha as [Hp Hw]. split; [exact Hp |]. exists qw. split; [exact Hs | exact Hw].
+  - exists mw. split; [exact Hs | exact Ha].
+  - split; [exact Ha | exact Hs].
 Qed.
